@@ -33,6 +33,7 @@ ALLOWED_WRITERS = {
     FS_SD + "write": "the logged data-file write",
     FS_SD + "resize": "the logged data-file resize",
     FS + "::apply_wal_record": "recovery: applies one undo record",
+    FS + "::apply_wal": "recovery: replays the undo log (when the per-record step is written inline)",
     FS_SD + "rename": "renames data file, recreates log, removes old log",
     FS_SD + "backup": "copies the data file to the backup name",
     WAL + "::new": "opens/creates the log file",
@@ -58,6 +59,62 @@ def is_file_writer_call(n, t):
                 "std::fs::hard_link"):
         return True
     return False
+
+
+def recovery_replay_rule(ctx):
+    """R01c (shared with C03): the undo log is replayed newest-first, each record applied at its place in that order."""
+    fa = ctx.facts
+    # ---------------- R01c
+    b = ctx.anchor("R01c", FS + "::apply_wal")
+    if b:
+        from lib import inline
+        b = inline.force_inline(fa, b, [FS + "::apply_wal_record"])      # the per-record step, helper or inline
+        rec_calls = [(i, t) for i, t in cfg.calls(b) if cfg.callee(t) == WAL + "::records"]
+        ok = False
+        detail = "WriteAheadLog::records not called"
+        where = b.where
+        if rec_calls:
+            i0, t0 = rec_calls[0]
+            der = cfg.derived_locals(b, [t0["d"][0]], extra_through=(), through=lambda n: cfg.is_transparent(n) or (
+                n or "").endswith(("::into_iter", "::rev", "::iter", "::iter_mut", "::drain")))
+            idioms = []
+            # the records are consumed by the step that writes the data file, inside the replay loop
+            loops_ = cfg.sccs(b)
+            feed = [x for x in cfg.call_blocks(b, ["std::fs::File::set_len", "std::io::Write::write_all"])
+                    if any(x in c for c in loops_)]
+            for i, t in cfg.calls(b):
+                n = cfg.callee(t) or ""
+                a0 = cfg.op_place(t["a"][0]) if t["a"] else None
+                if not a0 or a0[0] not in der:
+                    continue
+                if n.endswith("Iterator>::next") and "std::iter::Rev<" in (cfg.callee_full(t) or ""):
+                    idioms.append("Rev<..>::next")
+                if n.endswith("::next_back"):
+                    idioms.append("next_back")
+                if n in ("std::vec::Vec::pop",):
+                    idioms.append("Vec::pop")
+                if n.endswith("::reverse"):
+                    idioms.append("slice::reverse")
+                if n.endswith("Iterator>::next") and "Rev<" not in (cfg.callee_full(t) or ""):
+                    idioms.append("FORWARD:" + (cfg.callee_full(t) or n))
+            rb = fa.body(WAL + "::records")
+            if rb and cfg.call_blocks(rb, ["reverse"], suffix=True):
+                idioms.append("records() reverses")
+            good = [x for x in idioms if not x.startswith("FORWARD")]
+            fwd = [x for x in idioms if x.startswith("FORWARD")]
+            # every mutation of the data file made by the replay happens inside the loop, at the record's place in the
+            # newest-first order (a truncation deferred until after the loop cuts off content that a later-logged,
+            # earlier-replayed record has just restored)
+            allmut = cfg.call_blocks(b, ["std::fs::File::set_len", "std::io::Write::write_all"])
+            outside = [b.loc(x) for x in allmut if x not in feed]
+            ok = bool(good) and not fwd and bool(feed) and not outside
+            if good and not fwd and feed and outside:
+                idioms.append("file mutation outside the replay loop at %s" % outside)
+            detail = ("undo records reach the step that writes the data file through a reversing step: %s" % good) if ok else (
+                "undo records are replayed oldest-first or through an unrecognised idiom (found %s); accepted: "
+                "Iterator::rev, slice::reverse, Vec::pop, next_back" % (idioms or "none"))
+            where = b.loc(i0)
+        ctx.ob("R01c", "apply_wal:newest-first", ok, detail, where)
 
 
 def run(ctx):
@@ -114,45 +171,7 @@ def run(ctx):
                b.loc(i))
     ctx.floor("R01b", "file-writing functions in crate agdb", len(writers), 9)
 
-    # ---------------- R01c
-    b = ctx.anchor("R01c", FS + "::apply_wal")
-    if b:
-        rec_calls = [(i, t) for i, t in cfg.calls(b) if cfg.callee(t) == WAL + "::records"]
-        ok = False
-        detail = "WriteAheadLog::records not called"
-        where = b.where
-        if rec_calls:
-            i0, t0 = rec_calls[0]
-            der = cfg.derived_locals(b, [t0["d"][0]], extra_through=(), through=lambda n: cfg.is_transparent(n) or (
-                n or "").endswith(("::into_iter", "::rev", "::iter", "::iter_mut", "::drain")))
-            idioms = []
-            feed = cfg.call_blocks(b, [FS + "::apply_wal_record"])
-            for i, t in cfg.calls(b):
-                n = cfg.callee(t) or ""
-                a0 = cfg.op_place(t["a"][0]) if t["a"] else None
-                if not a0 or a0[0] not in der:
-                    continue
-                if n.endswith("Iterator>::next") and "std::iter::Rev<" in (cfg.callee_full(t) or ""):
-                    idioms.append("Rev<..>::next")
-                if n.endswith("::next_back"):
-                    idioms.append("next_back")
-                if n in ("std::vec::Vec::pop",):
-                    idioms.append("Vec::pop")
-                if n.endswith("::reverse"):
-                    idioms.append("slice::reverse")
-                if n.endswith("Iterator>::next") and "Rev<" not in (cfg.callee_full(t) or ""):
-                    idioms.append("FORWARD:" + (cfg.callee_full(t) or n))
-            rb = fa.body(WAL + "::records")
-            if rb and cfg.call_blocks(rb, ["reverse"], suffix=True):
-                idioms.append("records() reverses")
-            good = [x for x in idioms if not x.startswith("FORWARD")]
-            fwd = [x for x in idioms if x.startswith("FORWARD")]
-            ok = bool(good) and not fwd and bool(feed)
-            detail = ("undo records reach apply_wal_record through a reversing step: %s" % good) if ok else (
-                "undo records are replayed oldest-first or through an unrecognised idiom (found %s); accepted: "
-                "Iterator::rev, slice::reverse, Vec::pop, next_back" % (idioms or "none"))
-            where = b.loc(i0)
-        ctx.ob("R01c", "apply_wal:newest-first", ok, detail, where)
+    recovery_replay_rule(ctx)
 
     # ---------------- R01d
     n_sites = 0
@@ -220,8 +239,10 @@ def run(ctx):
                "a write that extends the file logs the current length (truncate-intent record)" if trunc else
                "FileStorage::write never logs the pre-operation length: a write that starts inside the file and extends "
                "it (pos < len < end) is undone only partially, the file stays longer after recovery", wb.where)
-    rb = ctx.anchor("R01d", FS + "::apply_wal_record")
+    rb = ctx.anchor("R01d", FS + "::apply_wal")
     if rb:
+        from lib import inline
+        rb = inline.force_inline(fa, rb, [FS + "::apply_wal_record"])
         # reader side: the is_empty() test of the record value selects set_len vs write
         ie = [(i, t) for i, t in cfg.calls(rb) if (cfg.callee(t) or "").endswith("::is_empty")]
         sl = cfg.call_blocks(rb, ["std::fs::File::set_len"])
